@@ -50,6 +50,7 @@ type history struct {
 	Hung    bool        `json:"hung,omitempty"`
 	Hits    []string    `json:"hits,omitempty"`
 	Deps    *depsResult `json:"deps,omitempty"` // kind "ixdeps": the verdict of the dependent-blob oracle
+	QD      *qdResult   `json:"qd,omitempty"`   // kind "ixquery": query+describe while claims flip the attribute
 }
 
 // world precomputes the sorted order of the pool.
